@@ -29,9 +29,10 @@ CONSTANTS
   Singleplex,  \* TRUE: singleplex sessions
   Feat,        \* enabled features, subset of FeatAll
   Dev,         \* deviations the code has, subset of DevAll
-  LateConn     \* highest-numbered connections that the client adds later (AddConn); {} = all present
+  LateConn,    \* highest-numbered connections that the client adds later (AddConn); {} = all present
+  TimerEp      \* the endpoint whose inactivity timer is modelled ("none": timers off)
 
-FeatAll == {"close", "sessclose", "fault", "timer", "blockaccept", "blockread", "swrite", "lazy"}
+FeatAll == {"close", "sessclose", "fault", "blockaccept", "blockread", "swrite", "lazy", "gates"}
 DevAll  == {"OpenCheckThenAct", "CountAfterPublish", "TimerCheckThenAct", "AddConnPublish", "NoticeFailLeak"}
 
 E == {"c", "s"}
@@ -78,6 +79,7 @@ VARIABLES
   aclosed,    \* aclosed[e][s]: the application at e called Close on s (ghost)
   timerBad,   \* ghost: the inactivity timer closed a session that had an open stream
   openpc,     \* progress of the client's OpenStream call: [pc, id]
+  addpc,      \* connection whose AddConnection call is between its two steps (0 = none)
   lastEv      \* observable outcome of the last step (behaviour export / trace binding)
 
 NetV  == <<net, connUp, deplexOn, dpend>>
@@ -86,8 +88,8 @@ AccV  == <<acceptQ, handles, await>>
 WrV   == <<wseq, wcount, wbusy>>
 RdV   == <<rnext, rheap, rpipe>>
 AppV  == <<consumed, eof, rwait, aclosed, timerBad>>
-vars  == <<NetV, pool, SessV, AccV, WrV, RdV, AppV, nextId, timerDecided, openpc, lastEv>>
-view  == <<NetV, pool, SessV, AccV, WrV, RdV, AppV, nextId, timerDecided, openpc>>
+vars  == <<NetV, pool, SessV, AccV, WrV, RdV, AppV, nextId, timerDecided, openpc, addpc, lastEv>>
+view  == <<NetV, pool, SessV, AccV, WrV, RdV, AppV, nextId, timerDecided, openpc, addpc>>
 
 Frame(s, q, cl, u) == [sid |-> s, seq |-> q, cl |-> cl, u |-> u]
 Iota(n) == [j \in 1..n |-> j]
@@ -113,7 +115,7 @@ Init ==
   /\ acceptClosed = [e \in E |-> FALSE]
   /\ handles = [e \in E |-> {}]
   /\ nextId = 1
-  /\ timers = [e \in E |-> IF "timer" \in Feat THEN 1 ELSE 0]
+  /\ timers = [e \in E |-> IF e = TimerEp THEN 1 ELSE 0]
   /\ timerDecided = [e \in E |-> FALSE]
   /\ cause = [e \in E |-> ""]
   /\ wseq = [e \in E |-> [s \in Streams |-> 0]]
@@ -130,6 +132,7 @@ Init ==
   /\ aclosed = [e \in E |-> [s \in Streams |-> FALSE]]
   /\ timerBad = FALSE
   /\ openpc = [pc |-> "idle", id |-> 0]
+  /\ addpc = 0
   /\ lastEv = [a |-> "Init"]
 
 -----------------------------------------------------------------------------
@@ -144,7 +147,19 @@ Apply(S) ==
   /\ count' = S.count /\ rpclosed' = S.rpclosed /\ acceptClosed' = S.acceptClosed /\ broken' = S.broken
   /\ poolCount' = S.poolCount /\ endClosed' = S.endClosed /\ timers' = S.timers /\ cause' = S.cause
 
-\* closeSession: CAS closed; under streamsM close the accept queue and every open stream's buffer
+\* the CAS on Session.closed
+MarkOn(S, e, why) == [S EXCEPT !.sclosed[e] = TRUE, !.cause[e] = why]
+
+\* closeStreams: under streamsM close the accept queue and every open stream's buffer
+StreamsOn(S, e) ==
+  LET live == {s \in Streams : S.tab[e][s] = "open" /\ ~S.stClosed[e][s]} IN
+       [S EXCEPT !.acceptClosed[e] = TRUE,
+                 !.stClosed[e] = [s \in Streams |-> IF s \in live THEN TRUE ELSE @[s]],
+                 !.rpclosed[e] = [s \in Streams |-> IF s \in live THEN TRUE ELSE @[s]],
+                 !.tab[e] = [s \in Streams |-> IF s \in live THEN "absent" ELSE @[s]],
+                 !.count[e] = @ - Cardinality(live)]
+
+\* closeSession: CAS closed, then closeStreams
 SweepOn(S, e, why) ==
   IF S.sclosed[e] THEN S
   ELSE LET live == {s \in Streams : S.tab[e][s] = "open" /\ ~S.stClosed[e][s]} IN
@@ -173,7 +188,7 @@ CloseStartOn(S, e, why) == IF S.sclosed[e] THEN S ELSE [SweepOn(S, e, why) EXCEP
 AfterCountZero(S, e) ==
   IF S.count[e] # 0 THEN S
   ELSE IF Singleplex THEN CloseStartOn(S, e, "single")
-  ELSE IF "timer" \in Feat THEN [S EXCEPT !.timers[e] = @ + 1] ELSE S
+  ELSE IF e = TimerEp THEN [S EXCEPT !.timers[e] = @ + 1] ELSE S
 
 \* sb.send by e; the connection is the caller's nondeterministic choice among the published ids.
 \* "ok": frame in flight; "broken": errBrokenSwitchboard; "werr": conn.Write failed.
@@ -193,7 +208,7 @@ OpenCheck ==
   /\ IF sclosed["c"]
        THEN lastEv' = [a |-> "Open", ok |-> FALSE, id |-> 0] /\ UNCHANGED openpc
        ELSE openpc' = [pc |-> "checked", id |-> 0] /\ lastEv' = [a |-> "OpenCheck"]
-  /\ UNCHANGED <<NetV, pool, SessV, AccV, WrV, RdV, AppV, nextId, timerDecided>>
+  /\ UNCHANGED <<NetV, pool, SessV, AccV, WrV, RdV, AppV, nextId, timerDecided, addpc>>
 
 OpenRegister ==
   /\ openpc.pc = "checked"
@@ -208,24 +223,21 @@ OpenRegister ==
               /\ openpc' = [pc |-> "idle", id |-> 0]
               /\ lastEv' = [a |-> "Open", ok |-> FALSE, id |-> 0]
               /\ UNCHANGED <<SessV, handles>>
-         ELSE IF "CountAfterPublish" \in Dev
-           THEN /\ Apply([Snap EXCEPT !.tab["c"][nextId] = "open"])
-                /\ openpc' = [pc |-> "registered", id |-> nextId]
-                /\ lastEv' = [a |-> "OpenRegister"]
-                /\ UNCHANGED handles
-           ELSE /\ Apply([Snap EXCEPT !.tab["c"][nextId] = "open", !.count["c"] = @ + 1])
-                /\ openpc' = [pc |-> "idle", id |-> 0]
-                /\ handles' = [handles EXCEPT !["c"] = @ \cup {nextId}]
-                /\ lastEv' = [a |-> "Open", ok |-> TRUE, id |-> nextId]
-  /\ UNCHANGED <<NetV, pool, acceptQ, await, WrV, RdV, AppV, timerDecided>>
+         ELSE /\ Apply(IF "CountAfterPublish" \in Dev
+                          THEN [Snap EXCEPT !.tab["c"][nextId] = "open"]
+                          ELSE [Snap EXCEPT !.tab["c"][nextId] = "open", !.count["c"] = @ + 1])
+              /\ openpc' = [pc |-> "registered", id |-> nextId]
+              /\ lastEv' = [a |-> "OpenRegister"]
+              /\ UNCHANGED handles
+  /\ UNCHANGED <<NetV, pool, acceptQ, await, WrV, RdV, AppV, timerDecided, addpc>>
 
 OpenCount ==
   /\ openpc.pc = "registered"
-  /\ Apply([Snap EXCEPT !.count["c"] = @ + 1])
+  /\ Apply(IF "CountAfterPublish" \in Dev THEN [Snap EXCEPT !.count["c"] = @ + 1] ELSE Snap)
   /\ handles' = [handles EXCEPT !["c"] = @ \cup {openpc.id}]
   /\ lastEv' = [a |-> "Open", ok |-> TRUE, id |-> openpc.id]
   /\ openpc' = [pc |-> "idle", id |-> 0]
-  /\ UNCHANGED <<NetV, pool, acceptQ, await, WrV, RdV, AppV, nextId, timerDecided>>
+  /\ UNCHANGED <<NetV, pool, acceptQ, await, WrV, RdV, AppV, nextId, timerDecided, addpc>>
 
 -----------------------------------------------------------------------------
 (* Stream.Write                                                             *)
@@ -245,7 +257,7 @@ SendDataFrame(e, s, c, left) ==
             /\ lastEv' = [a |-> "Write", ok |-> FALSE, e |-> e, s |-> s, c |-> c, done |-> TRUE]
             /\ UNCHANGED <<net, wcount>>
   /\ wseq' = [wseq EXCEPT ![e][s] = @ + 1]           \* the number is consumed even if the send fails
-  /\ UNCHANGED <<connUp, deplexOn, dpend, pool, AccV, RdV, AppV, nextId, timerDecided, openpc>>
+  /\ UNCHANGED <<connUp, deplexOn, dpend, pool, AccV, RdV, AppV, nextId, timerDecided, openpc, addpc>>
 
 WriteCall(e, s, k, c) ==
   /\ HasHandle(e, s) /\ wbusy[e][s] = 0
@@ -253,7 +265,7 @@ WriteCall(e, s, k, c) ==
   /\ IF stClosed[e][s] \/ (Unordered /\ k > 1)
        THEN \* refused: closed stream (ErrBrokenStream) / datagram larger than one frame (ErrShortBuffer)
             /\ lastEv' = [a |-> "Write", ok |-> FALSE, e |-> e, s |-> s, c |-> 0, done |-> TRUE]
-            /\ UNCHANGED <<NetV, pool, SessV, AccV, WrV, RdV, AppV, nextId, timerDecided, openpc>>
+            /\ UNCHANGED <<NetV, pool, SessV, AccV, WrV, RdV, AppV, nextId, timerDecided, openpc, addpc>>
        ELSE SendDataFrame(e, s, c, k - 1)
 
 WriteFrame(e, s, c) == wbusy[e][s] > 0 /\ SendDataFrame(e, s, c, wbusy[e][s] - 1)
@@ -279,7 +291,7 @@ CloseStream(e, s, c) ==
                       /\ lastEv' = [a |-> "CloseStream", ok |-> FALSE, e |-> e, s |-> s, c |-> c]
                       /\ UNCHANGED net
   /\ UNCHANGED <<connUp, deplexOn, dpend, pool, AccV, wcount, wbusy, RdV, consumed, eof, rwait, timerBad, nextId,
-                 timerDecided, openpc>>
+                 timerDecided, openpc, addpc>>
 
 -----------------------------------------------------------------------------
 (* receive buffers                                                          *)
@@ -339,21 +351,20 @@ Deliver(c, e) ==
            THEN RecvFrame(Snap, e, f) /\ UNCHANGED <<acceptQ, dpend>>
            ELSE \* new stream: create, publish in the table and the accept queue ...
                 /\ acceptQ' = [acceptQ EXCEPT ![e] = Append(@, f.sid)]
-                /\ IF "CountAfterPublish" \in Dev
-                     THEN \* ... the count and the payload follow after the table lock is released
-                          /\ Apply([Snap EXCEPT !.tab[e][f.sid] = "open"])
-                          /\ dpend' = [dpend EXCEPT ![c][e] = f]
-                          /\ UNCHANGED RdV
-                     ELSE /\ RecvFrame([Snap EXCEPT !.tab[e][f.sid] = "open", !.count[e] = @ + 1], e, f)
-                          /\ UNCHANGED dpend
-  /\ UNCHANGED <<connUp, deplexOn, pool, handles, await, WrV, AppV, nextId, timerDecided, openpc>>
+                \* ... the payload (and, deviation CountAfterPublish, the count) follow after the table lock is released
+                /\ Apply(IF "CountAfterPublish" \in Dev
+                            THEN [Snap EXCEPT !.tab[e][f.sid] = "open"]
+                            ELSE [Snap EXCEPT !.tab[e][f.sid] = "open", !.count[e] = @ + 1])
+                /\ dpend' = [dpend EXCEPT ![c][e] = f]
+                /\ UNCHANGED RdV
+  /\ UNCHANGED <<connUp, deplexOn, pool, handles, await, WrV, AppV, nextId, timerDecided, openpc, addpc>>
 
 DeliverB(c, e) ==
   /\ dpend[c][e] # Nil
   /\ dpend' = [dpend EXCEPT ![c][e] = Nil]
-  /\ RecvFrame([Snap EXCEPT !.count[e] = @ + 1], e, dpend[c][e])
+  /\ RecvFrame(IF "CountAfterPublish" \in Dev THEN [Snap EXCEPT !.count[e] = @ + 1] ELSE Snap, e, dpend[c][e])
   /\ lastEv' = [a |-> "DeliverB", c |-> c, e |-> e]
-  /\ UNCHANGED <<net, connUp, deplexOn, pool, AccV, WrV, AppV, nextId, timerDecided, openpc>>
+  /\ UNCHANGED <<net, connUp, deplexOn, pool, AccV, WrV, AppV, nextId, timerDecided, openpc, addpc>>
 
 -----------------------------------------------------------------------------
 (* Stream.Read                                                              *)
@@ -371,7 +382,7 @@ ReadNow(e, s) ==   \* a Read that finds data or end-of-stream
   /\ HasHandle(e, s) /\ ~rwait[e][s]
   /\ rpipe[e][s] # <<>> \/ (rpclosed[e][s] /\ ~eof[e][s])
   /\ TakeAll(e, s, "Read")
-  /\ UNCHANGED <<NetV, pool, SessV, AccV, WrV, rnext, rheap, rwait, aclosed, timerBad, nextId, timerDecided, openpc>>
+  /\ UNCHANGED <<NetV, pool, SessV, AccV, WrV, rnext, rheap, rwait, aclosed, timerBad, nextId, timerDecided, openpc, addpc>>
 
 ReadBlock(e, s) ==  \* a Read that finds nothing and parks
   /\ "blockread" \in Feat
@@ -379,13 +390,13 @@ ReadBlock(e, s) ==  \* a Read that finds nothing and parks
   /\ rpipe[e][s] = <<>> /\ ~rpclosed[e][s]
   /\ rwait' = [rwait EXCEPT ![e][s] = TRUE]
   /\ lastEv' = [a |-> "ReadBlock", e |-> e, s |-> s]
-  /\ UNCHANGED <<NetV, pool, SessV, AccV, WrV, RdV, consumed, eof, aclosed, timerBad, nextId, timerDecided, openpc>>
+  /\ UNCHANGED <<NetV, pool, SessV, AccV, WrV, RdV, consumed, eof, aclosed, timerBad, nextId, timerDecided, openpc, addpc>>
 
 ReadWake(e, s) ==   \* the parked Read returns as soon as there is data or the buffer is closed
   /\ rwait[e][s] /\ (rpipe[e][s] # <<>> \/ rpclosed[e][s])
   /\ rwait' = [rwait EXCEPT ![e][s] = FALSE]
   /\ TakeAll(e, s, "ReadWake")
-  /\ UNCHANGED <<NetV, pool, SessV, AccV, WrV, rnext, rheap, aclosed, timerBad, nextId, timerDecided, openpc>>
+  /\ UNCHANGED <<NetV, pool, SessV, AccV, WrV, rnext, rheap, aclosed, timerBad, nextId, timerDecided, openpc, addpc>>
 
 -----------------------------------------------------------------------------
 (* Session.Accept (server)                                                  *)
@@ -397,14 +408,14 @@ AcceptNow ==
        ELSE /\ acceptQ' = [acceptQ EXCEPT !["s"] = Tail(@)]
             /\ handles' = [handles EXCEPT !["s"] = @ \cup {Head(acceptQ["s"])}]
             /\ lastEv' = [a |-> "Accept", ok |-> TRUE, id |-> Head(acceptQ["s"])]
-  /\ UNCHANGED <<NetV, pool, SessV, await, WrV, RdV, AppV, nextId, timerDecided, openpc>>
+  /\ UNCHANGED <<NetV, pool, SessV, await, WrV, RdV, AppV, nextId, timerDecided, openpc, addpc>>
 
 AcceptBlock ==
   /\ "blockaccept" \in Feat
   /\ ~await["s"] /\ ~sclosed["s"] /\ acceptQ["s"] = <<>>
   /\ await' = [await EXCEPT !["s"] = TRUE]
   /\ lastEv' = [a |-> "AcceptBlock"]
-  /\ UNCHANGED <<NetV, pool, SessV, acceptQ, handles, WrV, RdV, AppV, nextId, timerDecided, openpc>>
+  /\ UNCHANGED <<NetV, pool, SessV, acceptQ, handles, WrV, RdV, AppV, nextId, timerDecided, openpc, addpc>>
 
 AcceptWake ==   \* a queued stream wins over the closed channel (Go delivers buffered values first)
   /\ await["s"] /\ (acceptQ["s"] # <<>> \/ acceptClosed["s"])
@@ -414,7 +425,7 @@ AcceptWake ==   \* a queued stream wins over the closed channel (Go delivers buf
             /\ handles' = [handles EXCEPT !["s"] = @ \cup {Head(acceptQ["s"])}]
             /\ lastEv' = [a |-> "AcceptWake", ok |-> TRUE, id |-> Head(acceptQ["s"])]
        ELSE lastEv' = [a |-> "AcceptWake", ok |-> FALSE, id |-> 0] /\ UNCHANGED <<acceptQ, handles>>
-  /\ UNCHANGED <<NetV, pool, SessV, WrV, RdV, AppV, nextId, timerDecided, openpc>>
+  /\ UNCHANGED <<NetV, pool, SessV, WrV, RdV, AppV, nextId, timerDecided, openpc, addpc>>
 
 -----------------------------------------------------------------------------
 (* Session.Close: closeSession, then notice frame + closeAll                *)
@@ -422,7 +433,7 @@ UserClose(e) ==
   /\ "sessclose" \in Feat /\ ~closing[e]
   /\ Apply(CloseStartOn(Snap, e, "active"))
   /\ lastEv' = [a |-> "SessClose", e |-> e, ok |-> ~sclosed[e]]
-  /\ UNCHANGED <<NetV, pool, AccV, WrV, RdV, AppV, nextId, timerDecided, openpc>>
+  /\ UNCHANGED <<NetV, pool, AccV, WrV, RdV, AppV, nextId, timerDecided, openpc, addpc>>
 
 SessCloseB(e, c) ==
   /\ closing[e]
@@ -435,7 +446,7 @@ SessCloseB(e, c) ==
             /\ Apply([(IF "NoticeFailLeak" \in Dev THEN Snap ELSE CloseAllOn(Snap, e)) EXCEPT !.closing[e] = FALSE])
             /\ lastEv' = [a |-> "SessCloseB", e |-> e, c |-> c, ok |-> FALSE]
             /\ UNCHANGED net
-  /\ UNCHANGED <<connUp, deplexOn, dpend, pool, AccV, WrV, RdV, AppV, nextId, timerDecided, openpc>>
+  /\ UNCHANGED <<connUp, deplexOn, dpend, pool, AccV, WrV, RdV, AppV, nextId, timerDecided, openpc, addpc>>
 
 -----------------------------------------------------------------------------
 (* connection faults                                                        *)
@@ -444,7 +455,7 @@ ConnFail(c) ==
   /\ connUp' = [connUp EXCEPT ![c] = FALSE]
   /\ net' = [net EXCEPT ![c] = [e \in E |-> <<>>]]
   /\ lastEv' = [a |-> "ConnFail", c |-> c]
-  /\ UNCHANGED <<deplexOn, dpend, pool, SessV, AccV, WrV, RdV, AppV, nextId, timerDecided, openpc>>
+  /\ UNCHANGED <<deplexOn, dpend, pool, SessV, AccV, WrV, RdV, AppV, nextId, timerDecided, openpc, addpc>>
 
 \* e's deplex goroutine on c sees the reset, its own closed end, or end-of-file after the peer closed and
 \* everything in flight was read; it closes the session passively and closes its end of c on return
@@ -456,7 +467,7 @@ DeplexEnd(c, e) ==
   /\ deplexOn' = [deplexOn EXCEPT ![c][e] = FALSE]
   /\ Apply([PassiveOn(Snap, e, "fault") EXCEPT !.endClosed[c][e] = TRUE])
   /\ lastEv' = [a |-> "DeplexEnd", c |-> c, e |-> e]
-  /\ UNCHANGED <<net, connUp, dpend, pool, AccV, WrV, RdV, AppV, nextId, timerDecided, openpc>>
+  /\ UNCHANGED <<net, connUp, dpend, pool, AccV, WrV, RdV, AppV, nextId, timerDecided, openpc, addpc>>
 
 -----------------------------------------------------------------------------
 (* inactivity timer: check, then act                                        *)
@@ -466,52 +477,64 @@ TimerRead(e) ==
   /\ LET S0 == [Snap EXCEPT !.timers[e] = @ - 1]
          idle == count[e] = 0 /\ ~sclosed[e] IN
      /\ lastEv' = [a |-> "TimerRead", e |-> e, idle |-> idle]
-     /\ IF idle /\ "TimerCheckThenAct" \in Dev
-          THEN Apply(S0) /\ timerDecided' = [timerDecided EXCEPT ![e] = TRUE]
-          ELSE IF idle
-            THEN Apply(CloseStartOn(S0, e, "timer")) /\ UNCHANGED timerDecided   \* repaired: one critical section
-            ELSE Apply(S0) /\ UNCHANGED timerDecided
+     /\ timerDecided' = [timerDecided EXCEPT ![e] = idle]
+     \* the code marks the session closed in the same critical section as the decision;
+     \* deviation TimerCheckThenAct: it only decides, and calls Close afterwards
+     /\ Apply(IF idle /\ "TimerCheckThenAct" \notin Dev THEN MarkOn(S0, e, "timer") ELSE S0)
      /\ timerBad' = (timerBad \/ (idle /\ "TimerCheckThenAct" \notin Dev /\ OpenSet(e) # {}))
-  /\ UNCHANGED <<NetV, pool, AccV, WrV, RdV, consumed, eof, rwait, aclosed, nextId, openpc>>
+  /\ UNCHANGED <<NetV, pool, AccV, WrV, RdV, consumed, eof, rwait, aclosed, nextId, openpc, addpc>>
 
 TimerClose(e) ==
   /\ timerDecided[e] /\ ~closing[e]
   /\ timerDecided' = [timerDecided EXCEPT ![e] = FALSE]
-  /\ Apply(CloseStartOn(Snap, e, "timer"))
-  /\ lastEv' = [a |-> "TimerClose", e |-> e, ok |-> ~sclosed[e]]
-  /\ timerBad' = (timerBad \/ (~sclosed[e] /\ OpenSet(e) # {}))
-  /\ UNCHANGED <<NetV, pool, AccV, WrV, RdV, consumed, eof, rwait, aclosed, nextId, openpc>>
+  /\ IF "TimerCheckThenAct" \in Dev
+       THEN /\ Apply(CloseStartOn(Snap, e, "timer"))
+            /\ timerBad' = (timerBad \/ (~sclosed[e] /\ OpenSet(e) # {}))
+       ELSE /\ Apply([StreamsOn(Snap, e) EXCEPT !.closing[e] = TRUE])
+            /\ UNCHANGED timerBad
+  /\ lastEv' = [a |-> "TimerClose", e |-> e, ok |-> TRUE]
+  /\ UNCHANGED <<NetV, pool, AccV, WrV, RdV, consumed, eof, rwait, aclosed, nextId, openpc, addpc>>
 
 -----------------------------------------------------------------------------
 (* switchboard.addConn on the client                                        *)
-AddConnCount(c) ==
-  /\ "AddConnPublish" \in Dev
-  /\ c \in LateConn /\ c \notin pool["c"] /\ c = poolCount["c"] + 1 /\ ~broken["c"]
-  /\ Apply([Snap EXCEPT !.poolCount["c"] = @ + 1])
-  /\ lastEv' = [a |-> "AddConnCount", c |-> c]
-  /\ UNCHANGED <<NetV, pool, AccV, WrV, RdV, AppV, nextId, timerDecided, openpc>>
-
-AddConnStore(c) ==
-  /\ c \in LateConn /\ c \notin pool["c"] /\ ~broken["c"]
+\* first step: store the entry (repaired code) / publish the count (deviation AddConnPublish)
+AddConnFirst(c) ==
+  /\ c \in LateConn /\ addpc = 0 /\ c \notin pool["c"] /\ c = poolCount["c"] + 1 /\ ~broken["c"]
+  /\ addpc' = c
   /\ IF "AddConnPublish" \in Dev
-       THEN c = poolCount["c"] /\ UNCHANGED SessV
-       ELSE c = poolCount["c"] + 1 /\ Apply([Snap EXCEPT !.poolCount["c"] = @ + 1])
-  /\ pool' = [pool EXCEPT !["c"] = @ \cup {c}]
-  /\ deplexOn' = [deplexOn EXCEPT ![c]["c"] = TRUE]
-  /\ lastEv' = [a |-> "AddConn", c |-> c]
+       THEN Apply([Snap EXCEPT !.poolCount["c"] = @ + 1]) /\ UNCHANGED pool
+       ELSE pool' = [pool EXCEPT !["c"] = @ \cup {c}] /\ UNCHANGED SessV
+  /\ lastEv' = [a |-> "AddConnFirst", c |-> c]
+  /\ UNCHANGED <<NetV, AccV, WrV, RdV, AppV, nextId, timerDecided, openpc>>
+
+\* second step: the other half, then the deplex goroutine starts
+AddConnSecond ==
+  /\ addpc # 0
+  /\ addpc' = 0
+  /\ IF "AddConnPublish" \in Dev
+       THEN pool' = [pool EXCEPT !["c"] = @ \cup {addpc}] /\ UNCHANGED SessV
+       ELSE Apply([Snap EXCEPT !.poolCount["c"] = IF broken["c"] THEN @ ELSE @ + 1]) /\ UNCHANGED pool
+  /\ deplexOn' = [deplexOn EXCEPT ![addpc]["c"] = TRUE]
+  /\ lastEv' = [a |-> "AddConn", c |-> addpc]
   /\ UNCHANGED <<net, connUp, dpend, AccV, WrV, RdV, AppV, nextId, timerDecided, openpc>>
 
 -----------------------------------------------------------------------------
+\* continuation steps that sit behind a labelled schedule point of the code (hook); a replay with "gates"
+\* parks the goroutine there, so the environment decides when they happen
+GateSteps ==
+  \/ OpenRegister \/ OpenCount
+  \/ \E c \in Conns, e \in E : DeliverB(c, e)
+  \/ \E e \in E : TimerClose(e)
+  \/ AddConnSecond
+
 \* steps the running goroutines take on their own (no environment decision involved)
 Internal ==
-  \/ OpenRegister \/ OpenCount
   \/ \E e \in E, s \in Streams, c \in Conns : c \in Picks(e) /\ WriteFrame(e, s, c)
   \/ \E e \in E, s \in Streams : ReadWake(e, s)
   \/ AcceptWake
   \/ \E e \in E, c \in Conns : c \in Picks(e) /\ SessCloseB(e, c)
-  \/ \E c \in Conns, e \in E : DeplexEnd(c, e) \/ DeliverB(c, e)
-  \/ \E e \in E : TimerClose(e)
-  \/ \E c \in Conns : "AddConnPublish" \in Dev /\ AddConnStore(c)
+  \/ \E c \in Conns, e \in E : DeplexEnd(c, e)
+  \/ ("gates" \notin Feat /\ GateSteps)
 
 \* steps decided by the environment: application calls, network delivery, faults, time
 Env ==
@@ -525,7 +548,8 @@ Env ==
   \/ \E e \in E : UserClose(e)
   \/ \E c \in Conns : ConnFail(c)
   \/ \E e \in E : TimerRead(e)
-  \/ \E c \in Conns : AddConnCount(c) \/ ("AddConnPublish" \notin Dev /\ AddConnStore(c))
+  \/ \E c \in Conns : AddConnFirst(c)
+  \/ ("gates" \in Feat /\ GateSteps)
 
 \* Reads and accepts commute with everything else of the other calls; unless "lazy" is requested they are
 \* taken as soon as they are possible, which shrinks the graph without hiding any unread data
@@ -541,7 +565,7 @@ Spec == Init /\ [][Next]_vars
 -----------------------------------------------------------------------------
 (* properties                                                               *)
 InFlightTo(e) == \E c \in Conns : net[c][Peer(e)] # <<>> /\ connUp[c] /\ deplexOn[c][e] /\ ~endClosed[c][e]
-Settled == /\ ~ENABLED Internal
+Settled == /\ ~ENABLED Internal /\ ~ENABLED GateSteps
            /\ \A e \in E : ~InFlightTo(e)
 
 \* C01/C12/C14: what the application has read or can read is what the peer wrote on that stream
@@ -574,7 +598,7 @@ EofInv ==
 \* C03: once closed locally or by the peer's processed close, writes are refused and reads do not hang
 ClosedStreamInv ==
   \A e \in E, s \in Streams :
-    (stClosed[e][s] /\ ~ENABLED Internal) => ~rwait[e][s]
+    (stClosed[e][s] /\ ~ENABLED Internal /\ ~ENABLED GateSteps) => ~rwait[e][s]
 
 \* C12: count of active streams = number of open streams whenever no call is half-way
 CountInv ==
